@@ -91,4 +91,45 @@ def isSupportedTokenMint (token2022 native2022 freeze badge : Bool) (tlv : List 
 def isTokenBadgeInitialized (ownedByProgram configMatches mintMatches : Bool) : Bool :=
   ownedByProgram && configMatches && mintMatches
 
+/-- one mint slot of `initialize_pool_v2`: the mint account and what sits in its token-badge slot.
+    `badge`: 0 nothing at the badge address · 1 the badge of (config, mint) · 2 an account that is NOT at the
+    badge address (another config's or mint's badge) · 3 program-owned data at the address recording another
+    config · 4 right content under a foreign owner · 5 the badge, carrying the require-non-transferable-position
+    attribute -/
+structure MintIn where
+  token2022 : Bool
+  native : Bool
+  freeze : Bool
+  tlv : List Nat
+  badge : Nat
+
+def badgeInit (k : Nat) : Bool :=
+  if k = 1 ∨ k = 5 then isTokenBadgeInitialized true true true
+  else if k = 3 then isTokenBadgeInitialized true false true
+  else if k = 4 then isTokenBadgeInitialized false true true
+  else false
+
+/-- `verify_supported_token_mint` -/
+def verifySupportedTokenMint (m : MintIn) : Except String Unit :=
+  match isSupportedTokenMint m.token2022 m.native m.freeze (badgeInit m.badge) m.tlv with
+  | .error e => .error e
+  | .ok false => .error "UnsupportedTokenMint"
+  | .ok true => .ok ()
+
+/-- `initialize_pool_v2` (accounts struct constraints, then the handler), for well-formed accounts.
+    `keyA`, `keyB` order like the two mint keys; the pool's data and its non-transferable-position flag. -/
+def initializePoolV2 (keyA keyB : Nat) (a b : MintIn) (price ts tierTs fee proto : Nat) : Except String (PoolD × Bool) :=
+  if a.badge = 2 ∨ b.badge = 2 then .error "ConstraintSeeds"
+  else if tierTs ≠ ts then .error "ConstraintRaw"
+  else
+    match verifySupportedTokenMint a with
+    | .error e => .error e
+    | .ok _ =>
+      match verifySupportedTokenMint b with
+      | .error e => .error e
+      | .ok _ =>
+        match initializePoolChecks keyA keyB price ts fee proto with
+        | .error e => .error e.name
+        | .ok p => .ok (p, (badgeInit a.badge && a.badge == 5) || (badgeInit b.badge && b.badge == 5))
+
 end WP
